@@ -392,14 +392,15 @@ fn run_program(idx: usize, prog: &Value, rng: &mut StdRng, out: &mut Writer, st:
         let r = op["r"].as_i64().unwrap();
         let expected = op.as_object_mut().unwrap().remove("snap");
         // choices the program leaves open
-        if op.get("via").is_none() {
-            let nv = if op["ev"] == "describe" { 3 } else { NVIA };
+        let kind_of_op = op["ev"].as_str().unwrap_or("").to_string();
+        if (kind_of_op == "describe" || kind_of_op == "register") && op.get("via").is_none() {
+            let nv = if kind_of_op == "describe" { 3 } else { NVIA };
             op["via"] = json!(rng.random_range(0..nv));
         }
-        if op.get("disp").is_none() {
+        if (kind_of_op == "describe" || kind_of_op == "register") && op.get("disp").is_none() {
             op["disp"] = json!(if rng.random_range(0..3) == 0 { "direct" } else { "tls" });
         }
-        if op["ev"] == "update" && op.get("h").is_none() {
+        if kind_of_op == "update" && op.get("h").is_none() {
             op["h"] = json!(rng.random_range(0..8));
         }
         let ev = if op["ev"] == "snapshot" {
